@@ -11,6 +11,15 @@
 (*   fallback_analyzer.go with the well-formedness predicates of every     *)
 (*   choice handed to the scheduler.                                       *)
 (*                                                                         *)
+(* The store part is parametric in two design decisions (VersionRules,      *)
+(* WriteGuards).  MC_ISCC_store*.cfg check the intended design ("cur+1",   *)
+(* guard TRUE) exhaustively.  The variant that transcribes the pinned code *)
+(* ("wr+1", guard FALSE) breaks every predicate below; it is used by       *)
+(* ISCCGen.tla / MC_ISCC_store_ascoded*.cfg to generate the counterexample *)
+(* schedules that the Go driver replays on the real store (finding F6).    *)
+(* Trace validation accepts either variant as explanation of a step; the   *)
+(* verdict comes from the predicates evaluated on the observed states.     *)
+(*                                                                         *)
 (* Each part keeps its whole state in one record-valued variable (`st`,    *)
 (* `an`) and defines its steps as operators from records to records, so    *)
 (* that ISCCTrace.tla can apply and compose the very same steps on traces  *)
